@@ -134,12 +134,12 @@ def run_verus(obs):
         p = subprocess.run(['verus', f, '--triggers-mode', 'silent'], cwd=os.path.join(VERIF, 'lemmas'), stdout=subprocess.PIPE, stderr=subprocess.STDOUT, text=True)
         m = re.search(r'verification results:: (\d+) verified, (\d+) errors', p.stdout)
         if m and int(m.group(2)) == 0 and int(m.group(1)) > 0:
-            results[o['name']] = dict(status='discharged', checks_total=int(m.group(1)), covers=0, stats={}, failed=[], output='')
+            results[o['key']] = dict(status='discharged', checks_total=int(m.group(1)), covers=0, stats={}, failed=[], output='')
         elif m:
-            results[o['name']] = dict(status='failed', checks_total=int(m.group(1)), covers=0, stats={}, output=p.stdout[-3000:],
+            results[o['key']] = dict(status='failed', checks_total=int(m.group(1)), covers=0, stats={}, output=p.stdout[-3000:],
                                       failed=[dict(description='Verus: lemma not verified', function=o['module'], location={'file': f, 'line': '?'}, category='lemma')])
         else:
-            results[o['name']] = dict(status='undecided', reason='verus produced no result: ' + p.stdout[-300:], checks=[], stats={}, output=p.stdout[-3000:])
+            results[o['key']] = dict(status='undecided', reason='verus produced no result: ' + p.stdout[-300:], checks=[], stats={}, output=p.stdout[-3000:])
     return results, time.time() - t0, ['verus', 'lemmas/*.rs']
 
 
@@ -171,7 +171,7 @@ def run_group(scratch, pkg, features, obs, tier, jobs):
         if m:
             reason += ': ' + ' | '.join(m[:3])
         for o in obs:
-            results[o['name']] = dict(status='undecided', reason=reason, output=out[-6000:], checks=[], stats={})
+            results[o['key']] = dict(status='undecided', reason=reason, output=out[-6000:], checks=[], stats={})
         return results, wall, cmd
     for r in data['verification_results']['results']:
         for c in r.get('checks', []):
@@ -186,7 +186,7 @@ def run_group(scratch, pkg, features, obs, tier, jobs):
         q = qualified(o)
         r = by_id.get(q)
         if r is None:
-            results[o['name']] = dict(status='undecided', reason='harness not found in Kani result (renamed anchor or build problem)',
+            results[o['key']] = dict(status='undecided', reason='harness not found in Kani result (renamed anchor or build problem)',
                                       output=out[-3000:], checks=[], stats={})
             continue
         checks = r.get('checks', [])
@@ -212,7 +212,7 @@ def run_group(scratch, pkg, features, obs, tier, jobs):
                 if failed:
                     why = 'only unwinding/unsupported-construct checks failed: ' + '; '.join(sorted(set(c['description'] for c in failed)))[:300]
                 res.update(status='undecided', reason=f'{why} (timeout, out of memory, unwinding bound or unsupported construct)')
-        results[o['name']] = res
+        results[o['key']] = res
     return results, wall, cmd
 
 
@@ -274,7 +274,7 @@ def run_native(scratch, ob, test_src):
 def write_replay(prop, ob, res, tests, kani_out, native, native_out, repo):
     os.makedirs(os.path.join(VERIF, 'replays'), exist_ok=True)
     path = os.path.join(VERIF, 'replays', f'{prop}-{ob["harness"]}.json')
-    rec = dict(property=prop, obligation=ob['name'], harness=qualified(ob), pkg=ob['pkg'], module=ob['module'],
+    rec = dict(property=prop, obligation=ob['key'], harness=qualified(ob), pkg=ob['pkg'], module=ob['module'],
                features=list(ob['features']), functions_under_contract=ob['fn'], failed_checks=res['failed'],
                kani_output=kani_out[-8000:], native_test=tests[0] if tests else None, all_native_tests=tests,
                native_outcome=native, native_output=native_out, repo=repo,
@@ -328,7 +328,7 @@ def match_known(known, prop, ob, fc, scratch=''):
     for k in known:
         if k['property'] != prop:
             continue
-        if k.get('obligation') and not re.fullmatch(k['obligation'], ob['name']):
+        if k.get('obligation') and not re.fullmatch(k['obligation'], ob['key']):
             continue
         if k['check'] not in fc['description']:
             continue
@@ -410,7 +410,7 @@ def cmd_check(prop, tier, repo, seed):
                 cmds.append(' '.join(cmd[:12]) + ' ... (%d harnesses, %.0fs)' % (len(obs), wall))
         # verdicts
         for o in all_obs:
-            r = results[o['name']]
+            r = results[o['key']]
             if r['status'] == 'undecided':
                 undecided.append((o, r))
             elif r['status'] == 'failed':
@@ -456,51 +456,51 @@ def cmd_check(prop, tier, repo, seed):
             seen.add(key)
             print(f'KNOWN-FINDING: property={prop} {k["what"]}')
     for line, o, r, native in vio_lines:
-        print(f'FAILED-OBLIGATION property={prop} obligation={o["name"]} functions={",".join(o["fn"])} checks=' +
+        print(f'FAILED-OBLIGATION property={prop} obligation={o["key"]} functions={",".join(o["fn"])} checks=' +
               ' | '.join(f'{fc["description"]} @ {(fc.get("location") or {}).get("file", "?")}:{(fc.get("location") or {}).get("line", "?")}' for fc in r['failed'][:4]) +
               f' native-replay={native}')
         print(line)
     for o, r in undecided:
-        print(f'UNDECIDED property={prop} obligation={o["name"]} reason={r["reason"]}')
+        print(f'UNDECIDED property={prop} obligation={o["key"]} reason={r["reason"]}')
 
-    discharged = [o for o in all_obs if results[o['name']]['status'] == 'discharged']
-    solver_s = sum((results[o['name']].get('stats') or {}).get('runtime_solver_s', 0) or 0 for o in all_obs)
+    discharged = [o for o in all_obs if results[o['key']]['status'] == 'discharged']
+    solver_s = sum((results[o['key']].get('stats') or {}).get('runtime_solver_s', 0) or 0 for o in all_obs)
     n_assume, n_stub = scan_assumptions(all_obs)
     fns = sorted({f for o in all_obs for f in o['fn']})
     assumed = sorted({s for o in all_obs for s in o.get('assumes', [])})
     samples = []
     for o in all_obs[:6]:
-        r = results[o['name']]
-        samples.append(dict(obligation=o['name'], functions=o['fn'], kind=o['kind'], bound=o.get('bound'), status=r['status'],
+        r = results[o['key']]
+        samples.append(dict(obligation=o['key'], functions=o['fn'], kind=o['kind'], bound=o.get('bound'), status=r['status'],
                             cbmc_checks=r.get('checks_total'), covers=r.get('covers'),
                             solver_s=(r.get('stats') or {}).get('runtime_solver_s'), claim=o.get('claim')))
     n_proof = len([o for o in all_obs if o['kind'] != 'bounded'])
-    bounded = [o['name'] for o in all_obs if o['kind'] == 'bounded']
+    bounded = [o['key'] for o in all_obs if o['kind'] == 'bounded']
     ev = dict(
         property_id=prop, tier=tier, seed=seed, level=OBL.LEVEL.get(prop, 'proof'),
         coverage=dict(
-            obligations=len([o for o in all_obs if results[o['name']]['status'] != 'known-finding']), discharged=len(discharged),
-            known_finding_obligations=[o['name'] for o in all_obs if results[o['name']]['status'] == 'known-finding'],
+            obligations=len([o for o in all_obs if results[o['key']]['status'] != 'known-finding']), discharged=len(discharged),
+            known_finding_obligations=[o['key'] for o in all_obs if results[o['key']]['status'] == 'known-finding'],
             checker_cmd='; '.join(cmds) if cmds else 'cargo kani',
             trusted_base=BASE_TRUST + OBL.TRUST.get(prop, []),
             samples=samples,
             functions_under_contract=fns,
-            obligations_all=[dict(name=o['name'], status=results[o['name']]['status'], kind=o['kind'],
+            obligations_all=[dict(name=o['key'], status=results[o['key']]['status'], kind=o['kind'],
                                   features=list(o['features']), bound=o.get('bound'),
-                                  solver_s=(results[o['name']].get('stats') or {}).get('runtime_solver_s'),
-                                  duration_s=round((results[o['name']].get('duration_ms') or 0) / 1000, 1),
-                                  cbmc_checks=results[o['name']].get('checks_total')) for o in all_obs],
+                                  solver_s=(results[o['key']].get('stats') or {}).get('runtime_solver_s'),
+                                  duration_s=round((results[o['key']].get('duration_ms') or 0) / 1000, 1),
+                                  cbmc_checks=results[o['key']].get('checks_total')) for o in all_obs],
             backend='Kani 0.68.0 / CBMC 6.11.0 / CaDiCaL',
             solver_time_s=round(solver_s, 3),
-            cbmc_checks_total=sum(results[o['name']].get('checks_total') or 0 for o in all_obs),
-            covers_satisfied=sum(results[o['name']].get('covers') or 0 for o in discharged),
+            cbmc_checks_total=sum(results[o['key']].get('checks_total') or 0 for o in all_obs),
+            covers_satisfied=sum(results[o['key']].get('covers') or 0 for o in discharged),
             bounded_standins=bounded,
             proof_obligations=n_proof,
             callee_contracts_assumed=assumed,
             kani_assume_calls_in_contract_files=n_assume, kani_stub_attributes_in_contract_files=n_stub,
             extraction_drops=dropped,
             known_findings_reported=sorted(seen),
-            undecided=[o['name'] for o, _ in undecided],
+            undecided=[o['key'] for o, _ in undecided],
             explanation=OBL.EXPLAIN.get(prop, ''),
         ),
         assumptions=BASE_TRUST + OBL.TRUST.get(prop, []) + [f'callee contract assumed (checked by its own obligation): {a}' for a in assumed],
@@ -508,7 +508,7 @@ def cmd_check(prop, tier, repo, seed):
         violations=len(vio_lines),
     )
     json.dump(ev, open(evidence_path, 'w'), indent=1)
-    print(f'{prop} [{tier}]: obligations={len(all_obs)} discharged={len(discharged)} known-finding={len([1 for o in all_obs if results[o["name"]]["status"] == "known-finding"])} '
+    print(f'{prop} [{tier}]: obligations={len(all_obs)} discharged={len(discharged)} known-finding={len([1 for o in all_obs if results[o["key"]]["status"] == "known-finding"])} '
           f'violations={len(vio_lines)} undecided={len(undecided)} solver={solver_s:.1f}s wall={time.time() - t0:.0f}s')
     if vio_lines:
         return 1
@@ -524,7 +524,7 @@ def cmd_list():
             print(p, tier, len(obs))
             if tier == 'thorough':
                 for o in obs:
-                    print('   ', o['tier'][0], o['name'], list(o['features']), o['kind'], '|', ','.join(o['fn']))
+                    print('   ', o['tier'][0], o['key'], list(o['features']), o['kind'], '|', ','.join(o['fn']))
 
 
 def main(argv):
